@@ -30,7 +30,9 @@ impl BS {
             f.fs[k0].leaf().len == s1.fs[k0].leaf().len,
             !f.fs[k0].leaf().bit_at(sbuddy(keep)),
             forall|j: int| 0 <= j < s.n(k0) && j != sbuddy(keep) ==> #[trigger] f.fs[k0].leaf().bit_at(j) == s1.fs[k0].leaf().bit_at(j),
+            forall|k: int, y: int| 0 <= k <= k0 + 1 ==> #[trigger] s1.cov(k, y) == (s.cov(k, y) && !is_anc(k, y, k0 + 1, u)),
         ensures f.inv1(), f.inv2(), s.cov(k0, keep), !f.cov(k0, keep),
+            forall|k: int, y: int| 0 <= k <= k0 ==> #[trigger] f.cov(k, y) == (s.cov(k, y) && !is_anc(k, y, k0, keep)),
     {
         let give = sbuddy(keep);
         assert(give / 2 == u);
@@ -60,5 +62,6 @@ impl BS {
         }
         f.lemma_cov_frame(s1, k0 + 1, k0 + 1, u);
         assert(!f.a(k0, keep));
+        BS::lemma_view_split(s, s1, f, k0, u, keep);
     }
 }
